@@ -119,6 +119,7 @@ type Result struct {
 	Follower    bool     `json:"follower"`
 	FollowerOK  bool     `json:"follower_sampled"`
 	Restarted   bool     `json:"restarted"`
+	RestartMs   int64    `json:"restart_ms"` // from starting the server on the copied log to the end of its sample
 	Dels        int      `json:"dels_received"`
 	EndRetries  int      `json:"end_retries"`
 }
@@ -888,6 +889,7 @@ func Run(p *Program, o Options) (*Result, error) {
 		if err := os.WriteFile(filepath.Join(copyDir, "appendonly.aof"), aof, 0o644); err != nil {
 			return nil, err
 		}
+		tr0 := time.Now()
 		rs, err := t38.Start(t38.Options{Dir: copyDir, Spinlock: o.Spinlock})
 		if err != nil {
 			return nil, fmt.Errorf("scenario %d: restart from the copied log: %v", p.Sc, err)
@@ -902,6 +904,7 @@ func Run(p *Program, o Options) (*Result, error) {
 			return nil, err
 		}
 		res.Restarted = true
+		res.RestartMs = int64(time.Since(tr0) / time.Millisecond)
 	}
 	close(stop)
 	bg.Wait()
